@@ -326,10 +326,24 @@ def seqParams (elems : List Word) : Option SeqParams :=
       some { chars := chars, «from» := fr, to := to, width := width, incr := incr, upward := upward }
   | _ => none
 
-/-- `string(rune(n))` for the values a validated character sequence reaches (ASCII); other
-    values are outside the property's domain and rendered as U+FFFD. -/
+/-- `rune(n)`: conversion of an int64 to int32 keeps the low 32 bits. -/
+def wrap32 (n : Int) : Int :=
+  let m := n % 4294967296
+  if m ≥ 2147483648 then m - 4294967296 else m
+
+/-- `string(rune(n))`: UTF-8 of the code point, U+FFFD for an invalid one. -/
 def runeBytes (n : Int) : Bytes :=
-  if 0 ≤ n ∧ n < 128 then [n.toNat.toUInt8] else [0xEF, 0xBF, 0xBD]
+  let r := wrap32 n
+  if r < 0 ∨ r > 0x10FFFF ∨ (0xD800 ≤ r ∧ r ≤ 0xDFFF) then [0xEF, 0xBF, 0xBD]
+  else
+    let c := r.toNat
+    if c < 0x80 then [c.toUInt8]
+    else if c < 0x800 then [(0xC0 + c / 64).toUInt8, (0x80 + c % 64).toUInt8]
+    else if c < 0x10000 then
+      [(0xE0 + c / 4096).toUInt8, (0x80 + c / 64 % 64).toUInt8, (0x80 + c % 64).toUInt8]
+    else
+      [(0xF0 + c / 262144).toUInt8, (0x80 + c / 4096 % 64).toUInt8,
+       (0x80 + c / 64 % 64).toUInt8, (0x80 + c % 64).toUInt8]
 
 def fmtSeq (sp : SeqParams) (n : Int) : Bytes :=
   if sp.chars then runeBytes n
